@@ -220,3 +220,31 @@ def errors(repo):
             f"def validRanges : List (Nat × Nat) := [{', '.join(f'({a}, {b_})' for a, b_ in ranges)}]\n\n"
             f"def defaultJsonHeaders : List (String × String) := [{', '.join(f'({lean_str(k)}, {lean_str(v)})' for k, v in default_json_headers)}]\n\n"
             "end Generated.Errors\n")
+
+
+@emitter("KeyFamily.lean")
+def key_family(repo):
+    """C02 / C20: what `prepare_key` of every registered JWS / JWE algorithm does with a key of every kind and form — observed on the real code.
+    The header's alg is the attacker's choice, the key is the server's: every cell must be `ok` or `ValueError`, never another exception."""
+    from authlib.jose import JsonWebSignature, JsonWebEncryption, JsonWebKey, OctKey
+    keys = {"oct": OctKey.import_key(b"0123456789abcdef0123456789abcdef"), "RSA": JsonWebKey.generate_key("RSA", 2048, is_private=True),
+            "EC": JsonWebKey.generate_key("EC", "P-256", is_private=True), "OKP": JsonWebKey.generate_key("OKP", "Ed25519", is_private=True),
+            "OKPX": JsonWebKey.generate_key("OKP", "X25519", is_private=True)}
+    rows = []
+    for reg_name, reg in (("jws", JsonWebSignature.ALGORITHMS_REGISTRY), ("jwe", JsonWebEncryption.ALG_REGISTRY)):
+        for alg in sorted(reg):
+            for kty, k in keys.items():
+                for form in ("object", "jwk", "pem"):
+                    if form == "pem" and kty == "oct":
+                        continue
+                    arg = k if form == "object" else dict(k.as_dict(is_private=True)) if form == "jwk" else k.as_pem(is_private=True)
+                    try:
+                        reg[alg].prepare_key(arg)
+                        outcome = "ok"
+                    except ValueError:
+                        outcome = "ValueError"
+                    except Exception as e:
+                        outcome = type(e).__name__
+                    rows.append(f"  ({lean_str(reg_name)}, {lean_str(alg)}, {lean_str(type(reg[alg]).__name__)}, {lean_str(kty)}, {lean_str(form)}, {lean_str(outcome)})")
+    return ("namespace Generated.KeyFamily\n\n/-- (registry, alg, implementing class, key kind, key form, outcome of `prepare_key`) -/\n"
+            "def prepareKey : List (String × String × String × String × String × String) := [\n" + ",\n".join(rows) + "]\n\nend Generated.KeyFamily\n")
